@@ -196,10 +196,12 @@ theorem gen_write_1272 (self : Gen.PhyEnc1272.Sx127x) (r : Register) (v : Int) :
 syntax "tie_norm" "[" Lean.Parser.Tactic.simpLemma,* "]" : tactic
 macro_rules
   | `(tactic| tie_norm [$ls,*]) => `(tactic| (
-    simp +decide only [bind_assoc_app, pure_bind_app, ofOpt_some_bind_app, ofOpt_none_bind_app, throw_bind_app, panic_bind_app, ite_bind_app, ite_app,
+    try simp +decide only [bind_assoc_app, pure_bind_app, ofOpt_some_bind_app, ofOpt_none_bind_app, throw_bind_app, panic_bind_app, ite_bind_app, ite_app,
       pure_app, pure_app', throw_app, Rt.shrC, Rt.shlC, Rt.ITy.bits, Rt.ITy.lo, Rt.ITy.hi, Rt.ITy.signed, Rt.b2i,
       Model.Phy.pure_eq_ret, Model.Phy.bind_eq, Model.Phy.bind_ret, Model.Phy.bind_fail, prog_bind_assoc, prog_bind_ite,
-      if_true, if_false, Bool.false_eq_true, Bool.true_eq_false, $ls,*]))
+      if_true, if_false, Bool.false_eq_true, Bool.true_eq_false, $ls,*]
+    try simp (disch := omega) only [Rt.ck, Rt.ITy.bits, Rt.ITy.lo, Rt.ITy.hi, Rt.ITy.signed, Int.reducePow, Int.reduceSub, Int.reduceNeg, if_pos, Bool.false_eq_true, if_false,
+      ofOpt_some_bind_app, bind_assoc_app, pure_bind_app]))
 
 /-- `v = u.toNat` for a byte computed on both sides: the `Rt` operations and the `UInt8` operations meet in `Nat` -/
 syntax "tie_val" "[" Lean.Parser.Tactic.simpLemma,* "]" : tactic
@@ -208,7 +210,15 @@ macro_rules
     simp +decide only [andI_toNat, orI_toNat, andI_lit_r, orI_lit_r, orI_lit_l, andI_lit_l, UInt8.toNat_and, UInt8.toNat_or, UInt8.toNat_ofNat', UInt8.toNat_ofNat,
       UInt8.reduceToNat, Rt.wrap, Rt.ITy.bits, Rt.ITy.signed, b2u, hi8, lo8, if_true, if_false, Bool.false_eq_true, Nat.reducePow, Nat.reduceMod, Int.reducePow,
       Nat.reduceMul, Int.reduceMul, Int.reduceMod, Int.reduceSub, Int.reduceToNat, Nat.reduceSub, $ls,*]
-    try rfl))
+    try first
+      | rfl
+      | ac_rfl
+      | (congr 1
+         generalize hn : UInt8.toNat _ = n
+         have hlt : n < 256 := by rw [← hn]; exact UInt8.toNat_lt _
+         clear hn
+         revert n
+         decide +kernel)))
 
 /-- a read / a write / the last write / a call of a method already tied, on both sides -/
 macro "tie_rd" : tactic => `(tactic| (
